@@ -551,6 +551,24 @@ def draw_case(d, kinds=None, *, degenerate=False, general_position=False,
             o['source_activity_mask'] = m
         if kind in ('cwmm', 'cbmm') and d.int(0, 3) == 0:
             case.trainer_kwargs['max_concentration'] = d.choice([100, 500])
+        if kind in ('cwmm', 'cbmm') and d.int(0, 3) == 0:
+            case.trainer_kwargs['dimension'] = D      # explicit feature dimension
+        if kind == 'cwmm' and d.int(0, 4) == 0:
+            case.trainer_kwargs['spline_markers'] = d.choice([1000, 300, 2000])
+        if kind == 'cbmm' and d.int(0, 4) == 0:
+            case.trainer_kwargs['eigenvalue_eps'] = d.choice([1e-8, 1e-6])
+        if kind in ('gmm', 'gcacgmm') and d.int(0, 4) == 0:
+            # covariance not learned: the caller provides it
+            ct = o.get('covariance_type', 'full' if kind == 'gmm' else 'spherical')
+            Dg = D if kind == 'gmm' else case.E
+            cl = lead_ if kind == 'gmm' else ()
+            if ct == 'full':
+                fc = gen.spd(rng, Dg, 10, 1.0, (*cl, K))
+            elif ct == 'diagonal':
+                fc = rng.uniform(0.5, 2.0, size=(*cl, K, Dg))
+            else:
+                fc = rng.uniform(0.5, 2.0, size=(*cl, K))
+            o['fixed_covariance'] = fc
         if want_aligner and 'source_activity_mask' not in o:
             import pb_bss.permutation_alignment as pa
             o['weight_constant_axis'] = d.choice([(-3,), (-3, -1), -3])
